@@ -246,8 +246,12 @@ func (c *Collector) collect() {
 
 	// generate the new hot keys.
 	res := newSortedHotKeys(c.capacity)
-	for keyName, counter := range curHotKeys {
+	for keyName, oldCounter := range curHotKeys {
 		visits := accessedKeyNames[keyName]
+		// HOTKEY readers walk the published slice without the lock:
+		// never update a published counter in place.
+		counter := new(logrithmCounter)
+		*counter = *oldCounter
 		counter.ReaptIncr(visits)
 		key := HotKey{Name: keyName, Counter: counter}
 		res.Insert(key)
@@ -271,20 +275,18 @@ func (c *Collector) evictStale() {
 	c.rwmu.Lock()
 	defer c.rwmu.Unlock()
 
-	// halve counter
+	// halve counter (on a copy: HOTKEY readers walk the published slice
+	// without the lock) and remove stale
 	curTimeInMinute := nowInMinute()
+	keys := make([]HotKey, 0, len(c.keys))
 	for _, key := range c.keys {
-		counter := key.Counter
+		counter := new(logrithmCounter)
+		*counter = *key.Counter
 		if curTimeInMinute > counter.LastUpdateTimeInMinute() {
 			counter.Halve()
 		}
-	}
-
-	// remove stale
-	keys := make([]HotKey, 0, len(c.keys))
-	for _, key := range c.keys {
-		if key.Counter.Value() != 0 {
-			keys = append(keys, key)
+		if counter.Value() != 0 {
+			keys = append(keys, HotKey{Name: key.Name, Counter: counter})
 		}
 	}
 	// only the stale counters were halved: restore the descending order.
